@@ -30,6 +30,11 @@ H0 = 'io_loop::io_loop_handle::IoLoopHandle::'
 
 
 def run(ctx):
+    _run_main(ctx)
+    _shared_r4(ctx)
+
+
+def _run_main(ctx):
     with ctx.rule('R02.1', 'publish wiring: Basic.Publish fields, then header(class id, body length, properties), then bodies, on one handle', floor=20) as r:
         for fnp, row in sorted(T.PUBLISH.items()):
             ems, ret, events = W.read_op(ctx, fnp, row['params'])
@@ -123,3 +128,10 @@ def run(ctx):
                 for i in rr.insts:
                     if True:  # the whole chain: the TuneOk put on the wire is the one the body splitter ends up with
                         r.insts.append(type(i)(r.rid, r._key(i.key.split(':', 1)[1]), i.ok, i.site, i.built, i.expected, i.why))
+
+
+def _shared_r4(ctx):
+    from rules import arms as A
+    """Rules of other properties that are necessary conditions of this one too (found by seeding round 4)."""
+    with ctx.rule('R02.6', "a publish on a healthy channel is never silently dropped: closing one channel does not seal the connection's output (shared with C09)", floor=1) as r:
+        A.include(ctx, r, 'c09', 'R09.1', pick=('no-seal',))
